@@ -6,7 +6,7 @@ MODULES = ['DsdVerif.Props.C14']
 GEN_FILES = ['IupacTables', 'Grammars']
 THEOREM_NAMES = ['ignore_skips', 'ignored_reaction_survives', 'reaction_missing_member', 'complement_sequence',
                  'complement_sequence_strong', 'non_iupac_rejected', 'failed_read_restores', 'sl_domain_length_mismatch',
-                 'dl_domain_lengths']
+                 'dl_domain_lengths', 'read_domains_sigma', 'read_sequences_sigma', 'read_strands_sigma']
 THEOREMS = ['Dsd.C14.' + t for t in THEOREM_NAMES]
 ASSUMPTIONS = [
     'consistent systems are generated from an abstract model (domains with lengths or IUPAC sequences, strands / composite domains, '
@@ -21,14 +21,21 @@ MANIFEST = {
             'to the code by a correspondence stream: every generated document is read by both and the complete result dictionaries '
             '(domains with lengths and sequences incl. derived complements, strands, complexes with sequence / structure / concentration, '
             'macrostates, detailed and condensed reactions with type / rate / units, number of ignored lines, registries after release) are '
-            'compared. Theorems about the reader model listed in the evidence (ignore_skips, ignored_reaction_survives, '
-            'complement_sequence, failed_read_restores, ... when present) and the component theorems of C01, C02, C12/C13 (kernel_rt, '
-            'resolve_kernel_inverse) and C17 carry the pieces; there is no single end-to-end theorem read_builds_sigma. The property '
-            'itself is decided on the real reader by an independent abstract model of PIL systems (all attributes, identical '
-            'singletons, `ignore`, line vs document, several documents per configured session).',
-    'note': 'End-to-end exactness w.r.t. an abstract system is established by exploration on the real code plus model correspondence, '
-            'not by one theorem; trusted base as in DESIGN.md section 3.',
-    'technique': 'Lean 4 model of the whole reader + correspondence on generated systems; theorems for its components; model-based oracle',
+            'compared. END-TO-END theorems "reading the declared system returns exactly it", for declared systems of ANY size: '
+            'read_domains_sigma (length declarations: the read succeeds; the dictionary keys are exactly the declared names and their '
+            'complements, in order; every name is bound to a live object of the configured class with the declared name and length, its '
+            'complement likewise; nothing else is in the dictionary; a line re-read on its own yields the same object), '
+            'read_sequences_sigma (mixed length / sequence declarations: sequences stored, complements carry the reverse Watson-Crick '
+            'complement), read_strands_sigma (plus composite-domain lines: every strand under its name with exactly the declared domain '
+            'list, whose members ARE the dictionary\'s domain objects). Clause theorems: ignore_skips, ignored_reaction_survives, '
+            'reaction_missing_member, complement_sequence_strong, failed_read_restores, sl_domain_length_mismatch, dl_domain_lengths; '
+            'component theorems of C01, C02, C12/C13 (kernel_rt, resolve_kernel_inverse) and C17. Complexes, macrostates and reactions '
+            'have no end-to-end theorem yet: for them the property is decided on the real reader by an independent abstract model of PIL '
+            'systems (all attributes, identical singletons, `ignore`, line vs document, several documents per configured session) plus '
+            'the model correspondence.',
+    'note': 'End-to-end exactness is a theorem for domains, sequences and strands; for complexes, macrostates and reactions it is '
+            'established by exploration on the real code plus model correspondence; trusted base as in DESIGN.md section 3.',
+    'technique': 'Lean 4 model of the whole reader: end-to-end theorems for domain / sequence / strand systems, clause theorems; correspondence on generated systems; model-based oracle',
 }
 
 
